@@ -197,9 +197,27 @@ func c07Run(ctx *run.Ctx, id run.CaseID) {
 			pq = 2
 		}
 		sD := floatPaths(r, pq, 1+r.Intn(2), 6)
-		c.in = map[string]any{"paths": sD, "precision": p}
-		c.digest = run.Digest(c.in)
 		rd := clip.NewRectD(-1, -1, 1, 1)
+		// a precision outside the range is rejected whatever the other arguments are: also for trivial ones
+		// (no paths, an empty path, an empty or inverted rectangle), where an entry point may return early
+		switch r.Intn(8) {
+		case 0:
+			sD = nil
+		case 1:
+			sD = clip.PathsD{}
+		case 2:
+			sD = clip.PathsD{{}}
+		case 3:
+			rd = clip.NewRectD(1, 1, 1, 1)
+		case 4:
+			rd = clip.NewRectD(2, 2, -2, -2)
+		}
+		first := clip.PathD{}
+		if len(sD) > 0 {
+			first = sD[0]
+		}
+		c.in = map[string]any{"paths": sD, "precision": p, "rect": fmt.Sprint(rd)}
+		c.digest = run.Digest(c.in)
 		calls := map[string]func(){
 			"BooleanOpPathsD":          func() { clip.BooleanOpPathsD(clip.Union, sD, nil, clip.NonZero, p) },
 			"UnionPathsD":              func() { clip.UnionPathsD(sD, clip.NonZero, p) },
@@ -209,11 +227,11 @@ func c07Run(ctx *run.Ctx, id run.CaseID) {
 			"XorWithClipPathsD":        func() { clip.XorWithClipPathsD(sD, sD, clip.NonZero, p) },
 			"BooleanOpPolyTreeD":       func() { clip.BooleanOpPolyTreeD(clip.Union, sD, nil, clip.NonZero, p) },
 			"InflatePathsD":            func() { clip.InflatePathsD(sD, 1, clip.Miter, clip.Polygon, clip.WithPrecision(p)) },
-			"MinkowskiSumD":            func() { clip.MinkowskiSumD(sD[0], sD[0], true, p) },
-			"MinkowskiDiffD":           func() { clip.MinkowskiDiffD(sD[0], sD[0], true, p) },
+			"MinkowskiSumD":            func() { clip.MinkowskiSumD(first, first, true, p) },
+			"MinkowskiDiffD":           func() { clip.MinkowskiDiffD(first, first, true, p) },
 			"RectClipPathsD":           func() { clip.RectClipPathsD(rd, sD, p) },
 			"RectClipLinesPathsD":      func() { clip.RectClipLinesPathsD(rd, sD, p) },
-			"TrimCollinearD":           func() { clip.TrimCollinearD(sD[0], p, false) },
+			"TrimCollinearD":           func() { clip.TrimCollinearD(first, p, false) },
 		}
 		if p != 0 {
 			calls["NewClipperD"] = func() { clip.NewClipperD(p) }
